@@ -178,7 +178,13 @@ def call_ext(interp, st, name, args, kwargs, frame, node) -> List[Outcome]:
         cls = a[0].ci if isinstance(a[0], ClassV) else None
         return ok(st, SuperV(cls, a[1] if len(a) > 1 else None))
     if name in ("copy.deepcopy", "copy.copy"):
-        return deepcopy_model(interp, st, a[0], site, shallow=(short == "copy"))
+        shallow = short == "copy"
+        if not shallow and len(a) > 1:
+            m = a[1]
+            if isinstance(m, Ref) and isinstance(st.heap.get(m.addr), DictO) and \
+                    (st.heap[m.addr].items or st.heap[m.addr].rest is not None):
+                shallow = True      # a pre-seeded memo makes the "copy" share the seeded objects
+        return deepcopy_model(interp, st, a[0], site, shallow=shallow)
     if name == "functools.partial":
         kw = {k: v for k, v in kwargs.items()}
         return ok(st, Ref(st.alloc(site + ":partial", PartialO(a[0], a[1:], kw))))
